@@ -6,7 +6,7 @@ from oracles import FourierOracle, ConsistencyOracle
 from propbase import StreamProperty
 
 RULE = ("fourier_transform / inverse_fourier_transform for every length n in a tier-dependent set (quick: 2..12 and "
-        "{15,16,17,31,32,33}; thorough: every n in 2..64 plus {127,128,129}), zero-fill factors 1-3 (n <= 40), shift "
+        "{15,16,17,31,32,33}; thorough: every n in 2..64 plus {127,128,129,255,256,257}), zero-fill factors 1-3, shift "
         "on/off, ppm conversion on/off, the transformed dimension in every position of 1-3-D objects, random complex "
         "signals; correspondence with the Lean DFT model (twiddle table as parameter) and, on the real code, a direct "
         "O(n^2) DFT, on-grid tones at bins {0,1,N/2,(N-1)/2,N-1}, the exact axis spacing, linearity, renaming and the "
@@ -16,9 +16,7 @@ RULE = ("fourier_transform / inverse_fourier_transform for every length n in a t
 def lengths(tier):
     if tier == "quick":
         return list(range(2, 13)) + [15, 16, 17, 31, 32, 33]
-    # the executable model recomputes a trace's DFT for every output point (specification style), i.e. O(n^3) per trace in
-    # the interpreter: lengths beyond 129 would take minutes each
-    return list(range(2, 65)) + [127, 128, 129]
+    return list(range(2, 65)) + [127, 128, 129, 255, 256, 257]
 
 
 def streams(tier, seed):
@@ -27,7 +25,7 @@ def streams(tier, seed):
     att = {"nmr_frequency": "400000000"}; datt = {"frequency": "400000000"}
     for n in lengths(tier):
         for shift in (True, False):
-            zff = rng.choice([1, 1, 2, 3]) if n <= 40 else 1
+            zff = rng.choice([1, 1, 2, 3]) if n <= 64 else 1
             conv = rng.random() < 0.5
             dt = Fraction(1, rng.choice([1, 2, 8, 1024]))
             a = uniform_new(rng, 0, ["t2"], [n], "t2", x0=Fraction(0), dt=dt, cplx=True, attrs=dict(att), dattrs=dict(datt),
